@@ -85,6 +85,9 @@ func propC08(c *Ctx, r *Report) {
 	r.Clauses = append(r.Clauses, "syntax-tree walkers (E3): every function reachable from the parser / lowerer entry points that walks the parser's tree (a type switch over Expr, Stmt, Type or Decl nodes using every child in >= 3/4 of its arms) uses every child node of every variant it has an arm for and, when it has no default arm, has an arm for every variant that has children (a declaration referenced only through an unvisited child is ordered after its user and the valid program is rejected)")
 	c.runFrontendASTWalkers(r, "frontend")
 	r.floor("frontend.astwalkers", 8)
+	r.Clauses = append(r.Clauses, "template list ends (E49): every expectation of the '>' that closes a template list goes through the one helper that also splits '>>', '>=' and '>>='")
+	c.runTemplateClose(r, "template.close", "wgsl/internal/parser")
+	r.floor("template.close", 5)
 	r.Clauses = append(r.Clauses, headerSemiClause)
 	c.runHeaderSemicolon(r, "parse.headersemi", "wgsl/internal/parser")
 	r.floor("parse.headersemi", 8)
